@@ -47,6 +47,10 @@ def label_variants(spec):
 
 def orientation_menu(ids, cap):
     k = len(ids)
+    if cap < 0:  # large complexes: two structured assignments next to the default
+        yield {i: 1 for i in ids}
+        yield {i: (j % 2) for j, i in enumerate(ids)}
+        return
     if k <= cap:
         for bits in itertools.product((0, 1), repeat=k):
             yield dict(zip(ids, bits))
@@ -174,6 +178,9 @@ def _work(item):
     with warnings.catch_warnings():
         warnings.simplefilter("ignore")
         S = F.build(spec)
+        if kind == "big":
+            n, v = check_complex(S, -1)
+            return {"n": n, "viols": [(m, msg, ori, kind, spec) for m, msg, ori in v]}
         n, v = check_complex(S, _CAP)
         F.detour(S)  # a maximal simplex removed and re-added under its ID: same complex, different history
         F.morph(S)  # a maximal two-node simplex re-pointed: different complex, same counts
@@ -195,6 +202,8 @@ def family(tier):
             if tier == "quick" and kind in ("reversed",) and len(s["edges"]) > 2:
                 continue
             items.append((kind, v))
+    # a vertex with 130 cofaces, an edge with 130 cofaces: Laplacian diagonals above 127
+    items += [("big", c) for c in F.big_complexes()]
     return items
 
 
